@@ -90,24 +90,28 @@ def parse_jaqal_string(
 
     _monkeypatch_sly()
 
-    sexpr, usepulses = parse_to_sexpression(jaqal, return_usepulses=True)
+    try:
+        sexpr, usepulses = parse_to_sexpression(jaqal, return_usepulses=True)
 
-    circuit = build(
-        sexpr,
-        inject_pulses=inject_pulses,
-        autoload_pulses=autoload_pulses,
-        import_path=import_path,
-    )
+        circuit = build(
+            sexpr,
+            inject_pulses=inject_pulses,
+            autoload_pulses=autoload_pulses,
+            import_path=import_path,
+        )
 
-    if expand_macro:
-        # preserve_definitions maintains old API behavior
-        circuit = expand_macros(circuit, preserve_definitions=True)
+        if expand_macro:
+            # preserve_definitions maintains old API behavior
+            circuit = expand_macros(circuit, preserve_definitions=True)
 
-    if expand_let_map:
-        circuit = fill_in_let(circuit, override_dict=override_dict)
-        circuit = fill_in_map(circuit)
-    elif expand_let:
-        circuit = fill_in_let(circuit, override_dict=override_dict)
+        if expand_let_map:
+            circuit = fill_in_let(circuit, override_dict=override_dict)
+            circuit = fill_in_map(circuit)
+        elif expand_let:
+            circuit = fill_in_let(circuit, override_dict=override_dict)
+    except RecursionError:
+        # The builder and the passes recurse over the nesting of blocks
+        raise JaqalError("Program is nested too deeply") from None
 
     if sum(reg.fundamental for reg in circuit.registers.values()) > 1:
         raise JaqalError(f"Circuit has too many registers: {list(circuit.registers)}")
